@@ -67,8 +67,18 @@ def nelder_mead_agrees_with_reference(ctx):
     mine = _slice_from(_nm_update_branch(f), lambda s: _assigns_name(s, 'xbar'))
     ref = _slice_from(_loop_of(r).body, lambda s: _assigns_name(s, 'xbar'), lambda s: _assigns_name(s, 'ind'))
     ctx.need(mine and ref, 'Nelder-Mead update blocks not found')
-    a = SB.summary(SB.block(mine), track_calls=('cost',))
-    b = SB.summary(SB.block(ref), name_map={'func': 'cost'}, track_calls=('cost',))
+    # index ranges bound before the block (one2np1 = range(1, N+1)) are substituted on whichever side names them
+    def ranges(stmts, stop):
+        env = {}
+        for st in stmts:
+            if st is stop:
+                break
+            if isinstance(st, ast.Assign) and len(st.targets) == 1 and isinstance(st.targets[0], ast.Name) and isinstance(st.value, ast.Call) and \
+                    callee_text(st.value) == 'range':
+                env[st.targets[0].id] = T.term(st.value)
+        return env
+    a = SB.summary(SB.block(mine), track_calls=('cost',), env=ranges(_nm_update_branch(f), mine[0]))
+    b = SB.summary(SB.block(ref), name_map={'func': 'cost'}, track_calls=('cost',), env=ranges(r.node.body, _loop_of(r)))
     ctx.stats['terms_compared'] += len(a)
     ctx.check(a == b, 'NelderMeadSimplexSolver._Step#update', '%d path summaries equal the reference fmin loop body' % len(a),
               'the Nelder-Mead update differs from the reference scipy fmin it is adapted from: %s' % SB.diff(a, b), f, mine[0])
@@ -77,9 +87,10 @@ def nelder_mead_agrees_with_reference(ctx):
     okpre = True
     for s_ in pre:
         txt = ''.join(unparse(s_).split())
-        if txt in ('sim=self.population', 'fsim=self.popEnergy', 'N=len(sim[0])', 'one2np1=range(1,N+1)') or \
-                txt.startswith('sim[0]=asarray(constraints(sim[0])'):
+        if txt in ('sim=self.population', 'fsim=self.popEnergy', 'N=len(sim[0])') or txt.startswith('sim[0]=asarray(constraints(sim[0])'):
             continue
+        if isinstance(s_, ast.Assign) and len(s_.targets) == 1 and isinstance(s_.targets[0], ast.Name) and isinstance(s_.value, ast.Call) and callee_text(s_.value) == 'range':
+            continue      # an index range
         okpre = False
     ctx.check(okpre, 'NelderMeadSimplexSolver._Step#prologue', 'prologue = bind sim/fsim, N, one2np1, re-project best vertex',
               'unexpected statement before the update block: %s' % [norm_stmt(s_) for s_ in pre][:3], f, pre[0] if pre else mine[0])
@@ -142,7 +153,7 @@ def initial_simplex(ctx):
               'val = x0*(1+radius); radius default %s = nonzdelt; zero step %s = zdelt' % (rad, zval),
               'initial simplex step is %s, radius default %s (reference %s), zero step %s (reference %s)' % (T.show(val) if val else None, rad, nz, zval, zd), h, h.node)
     f = ctx.func(SO + ':NelderMeadSimplexSolver._Step')
-    loops = [n for n in walk_no_nested(f.node) if isinstance(n, ast.For) and ''.join(unparse(n.iter).split()) == 'range(0,N)']
+    loops = [n for n in walk_no_nested(f.node) if isinstance(n, ast.For) and T.term(n.iter) == ('call', ('name', 'range'), (('name', 'N'),), ())]
     ctx.need(loops, 'simplex population loop not found')
     a = SB.summary(SB.block(loops[0].body), track_calls=('cost',))
     refsrc = 'def blk():\n    y = numpy.array(x0, copy=True)\n    y[k] = val[k]\n    sim[k+1] = y\n    fsim[k+1] = cost(y)\n'
